@@ -858,8 +858,15 @@ pub fn run_case(case: &Case, stats: &mut Stats) -> RunReport {
             stats.bump("probe.no_program_name");
         }
         // ---- tier A: the simulated process
-        let parser = exec::build_unchecked(opts);
-        let obs: ProcObs = exec::launch(parser, argv, out_fault, err_fault, budget);
+        let obs: ProcObs = exec::launch(opts, argv, out_fault, err_fault, budget);
+        stats.bump(&format!(
+            "entry.{}",
+            match crate::shape::entry_for(opts, rest) {
+                1 => "Parser_run",
+                2 => "try_run",
+                _ => "OptionParser_run",
+            }
+        ));
         stats.add("ticks.total", obs.ticks);
         stats.max("ticks.max_per_op", obs.ticks);
         seam_events += 1;
